@@ -49,6 +49,7 @@ type Case struct {
 	Reply          []byte   `json:"reply"`           // wire form of un.All (routes plain/rb-*)
 	RawType        string   `json:"raw_type"`        // HttpBody content type (routes raw / rb-body)
 	RawData        []byte   `json:"raw_data"`
+	Custom         bool     `json:"custom"`      // the mux also registers a codec of its own under a non-default type (CodecOption("application/x-protobuf", CodecProto)): a registered codec like the others
 	ForgeType      string   `json:"forge_type"`  // with a HeaderMode: the handler's header metadata also carries content-type = this
 	HeaderMode     string   `json:"header_mode"` // "", "set" (grpc.SetHeader) or "send" (grpc.SendHeader) before the reply is returned
 	Later          int      `json:"later"`       // further registrations on the same mux after the service under test (0-2)
@@ -93,6 +94,8 @@ func theWorld() *dyn.World {
 	})
 	return world
 }
+
+const customType = "application/x-protobuf"
 
 var registered = []string{"application/json", "application/octet-stream", "application/protobuf"}
 
@@ -179,7 +182,21 @@ func Check(c Case) ([]evid.Violation, info) {
 		}
 		return proto.Clone(reply), nil
 	}, nil)
-	mux, err := larking.NewMux(larking.FilesOption(w.Files))
+	mopts := []larking.MuxOption{larking.FilesOption(w.Files)}
+	registered := registered
+	if c.Custom {
+		mopts = append(mopts, larking.CodecOption(customType, larking.CodecProto{}))
+		registered = append(append([]string{}, registered...), customType)
+	}
+	isRegistered := func(ct string) bool {
+		for _, r := range registered {
+			if r == ct {
+				return true
+			}
+		}
+		return false
+	}
+	mux, err := larking.NewMux(mopts...)
 	if err != nil {
 		panic(err)
 	}
@@ -370,7 +387,7 @@ func Check(c Case) ([]evid.Violation, info) {
 	switch ct {
 	case "application/json":
 		derr = protojson.UnmarshalOptions{Resolver: w.Types}.Unmarshal(payload, got)
-	case "application/protobuf", "application/octet-stream":
+	case "application/protobuf", "application/octet-stream", customType:
 		derr = proto.Unmarshal(payload, got)
 	default:
 		derr = fmt.Errorf("no decoder for %q", ct)
@@ -404,7 +421,11 @@ func genAcceptLine(t *rapid.T) string {
 			parts = append(parts, rapid.SampledFrom(junkPool).Draw(t, "junkv"))
 			continue
 		}
-		parts = append(parts, rapid.SampledFrom(mediaPool).Draw(t, "media")+rapid.SampledFrom(qPool).Draw(t, "q"))
+		media := rapid.SampledFrom(mediaPool).Draw(t, "media")
+		if rapid.IntRange(0, 9).Draw(t, "customMedia") == 0 {
+			media = customType // registered on some muxes (Case.Custom), unknown to the others
+		}
+		parts = append(parts, media+rapid.SampledFrom(qPool).Draw(t, "q"))
 	}
 	return strings.Join(parts, rapid.SampledFrom([]string{",", ", ", " , "}).Draw(t, "sep"))
 }
@@ -422,6 +443,7 @@ func genCase(t *rapid.T) Case {
 		// HttpBody replies travel raw under their own type, whatever type (registered or not) the request names
 		c.ContentType = rapid.SampledFrom([]string{"image/jpeg", "text/plain", "application/x-unknown"}).Draw(t, "oddCTv")
 	}
+	c.Custom = rapid.IntRange(0, 3).Draw(t, "custom") == 0
 	c.HeaderMode = rapid.SampledFrom([]string{"", "", "set", "send"}).Draw(t, "headerMode")
 	if c.HeaderMode != "" && rapid.IntRange(0, 2).Draw(t, "forge") == 0 {
 		c.ForgeType = rapid.SampledFrom([]string{"text/plain", "application/json", "application/protobuf", "application/octet-stream", "application/grpc"}).Draw(t, "forgeType")
@@ -468,7 +490,7 @@ func TestProp(t *testing.T) {
 			hasQ = hasQ || r.Q != 1
 			hasWild = hasWild || r.Sub == "*"
 		}
-		cl := []string{"route=" + c.Route, "reqct=" + c.ContentType, fmt.Sprintf("adm=%d", in.adm), "headers=" + c.HeaderMode + map[bool]string{true: "+content-type-metadata"}[c.ForgeType != ""]}
+		cl := []string{"route=" + c.Route, map[bool]string{true: "mux-with-a-custom-codec", false: "default-codecs"}[c.Custom], "reqct=" + c.ContentType, fmt.Sprintf("adm=%d", in.adm), "headers=" + c.HeaderMode + map[bool]string{true: "+content-type-metadata"}[c.ForgeType != ""]}
 		if in.contested {
 			cl = append(cl, "accept-contested")
 		} else if c.Accept != nil {
